@@ -311,7 +311,11 @@ def finalize(prop: str, tier: str, seed: int, results: list[dict], *, rule: str,
         if not rep:
             continue
         try:
-            fl = replay_fn(rep["sub_check"], rep["input"])
+            import contextlib
+            import io
+
+            with contextlib.redirect_stdout(io.StringIO()):  # leaspy prints progress lines
+                fl = replay_fn(rep["sub_check"], rep["input"])
         except Exception as e:  # the reproducer itself must be runnable
             harness_errors.append(dict(harness_error=f"reproducer {f['id']} crashed: {e!r}\n{traceback.format_exc()[-3000:]}", shard="reproducer"))
             continue
@@ -329,7 +333,9 @@ def finalize(prop: str, tier: str, seed: int, results: list[dict], *, rule: str,
             failures.extend(fl)  # a fixed finding that fails again is a violation
 
     # 2. generated failures: suppressed only if their bucket AND input class match an open finding
-    open_buckets = {f["bucket"]: f for f in open_f}
+    # open findings are excluded / neutralised *by construction* in the search, so a generated failure is never hidden because
+    # its bucket resembles a known one - unless the finding explicitly asks for it (input class that cannot be predicted)
+    open_buckets = {f["bucket"]: f for f in open_f if f.get("suppress_generated")}
     suppressed = Counter()
     seen_buckets = {}
     for f in failures:
